@@ -30,6 +30,8 @@ func main() {
 		c28(*seed, *n, *ops)
 	case "c36renew":
 		c36renew(*seed, *n)
+	case "c36expiry":
+		c36expiry(*keys)
 	default:
 		fmt.Fprintln(os.Stderr, "usage: sysharness [-seed N] [-n N] c37|c34|c28|c36 ...")
 		os.Exit(2)
